@@ -204,6 +204,15 @@ def r09_3(ctx: Ctx) -> None:
         cn = q.node_for(f, c)
         ok = bool(resets) and not cfg.reaches(cn, it, avoid=[q.node_for(f, r) for r in resets], normal_only=True)
         ctx.check(ok, "R09.3", f, c, "accumulator emptied after the delayed check", "the list of skipped members is not emptied after they were decoded: they are decoded again at the next selected member and the stream desynchronises")
+    # ... and ONLY there: what waits in the list has not been decoded yet; an emptying that can be reached in an iteration that did not run the
+    # check (the arm of a selected member without a stream) forgets the members in front, and the next delivered member is decoded from their bytes
+    for r in resets:
+        rn = q.node_for(f, r)
+        bypass = cfg.reaches(body, rn, avoid=[q.node_for(f, c) for c in inloop] + [it])
+        ctx.check(not bypass, "R09.3", f, r, "the list of skipped members is emptied only behind the check that decoded them",
+                  f"`{norm(r)}` can be reached in an iteration that has not decoded the skipped members (a selected member WITHOUT a stream - a 7-Zip style empty file - between an "
+                  "unselected data member and a selected one): the skipped bytes are never consumed and the next selected member is decoded from the wrong position "
+                  "(an exception or wrong bytes instead of the member)", construct="skip list emptied without the check")
     # accumulation: iff unselected and has a stream
     apps = [c for c in q.calls(f) if attr_tail(c) == "append" and norm(c.func.value) == acc]
     ctx.floor("R09.3", len(apps), 1, "accumulator appends")
